@@ -371,3 +371,61 @@ def r8_3(ctx):
             ctx.ob("find_and_play_best_move:blocking-call:%s" % c.split("::")[-1], False, b.where(b.term_loc(bb)),
                    "`%s` blocks until the search thread acts; the reply must be sent on the command thread's own clock" % c)
     ctx.ob("find_and_play_best_move:no-unbounded-blocking", True, b.file, "callees checked against the blocking list", nontrivial=False)
+
+
+def r17_5(ctx):
+    """clean_input: a character is copied iff it is not whitespace; a single space is emitted for a
+    whitespace character only when the previous character was not whitespace; the result is trimmed."""
+    from wa.cond import dominating_facts
+    f = ctx.facts
+    b = f.body("utils::clean_input")
+    ctx.note_fn("utils::clean_input")
+    ex = Exprs(b)
+    pushes = [(bb, t) for bb, t in b.iter_calls() if (callee_of(t) or "").endswith("String::push")]
+    kinds = {}
+    item = None
+    for bb, t in pushes:
+        a = strip_refs(ex.call_args(bb)[1])
+        ws = {}
+        for d, vals, excl, s, tg in dominating_facts(b, ex, bb):
+            truth = True if ((vals is None and excl == [0]) or vals == [1]) else (False if vals == [0] else None)
+            d0 = strip_refs(d)
+            if d0[0] == "call" and d0[1].endswith("<impl char>::is_whitespace") and truth is not None:
+                ws[strip_refs(d0[2][0])] = truth
+        if a == ("char", " "):
+            kinds["space"] = (bb, ws)
+        else:
+            kinds["copy"] = (bb, ws, a)
+            item = a
+    ok = set(kinds) == {"space", "copy"}
+    if ok:
+        cb, cws, ca = kinds["copy"]
+        sb, sws = kinds["space"]
+        ok_copy = cws == {ca: False} and ca[0] == "field" and ca[1][0] == "downcast"   # the loop item
+        others = [k for k in sws if k != ca]
+        ok_space = sws.get(ca) is True and len(others) == 1 and sws[others[0]] is False and others[0][0] == "var"
+        # prev is assigned the current char on every iteration
+        ok_prev = False
+        if ok_space:
+            pl = others[0][1]
+            for loc, k in b.reaching().all_sites(pl):
+                if k == "whole" and loc[1] < len(b.stmts(loc[0])):
+                    e = strip_refs(ex.rvalue(b.stmts(loc[0])[loc[1]]["rv"], loc))
+                    if e == ca:
+                        lp = [h for h, body_ in b.loops().items() if loc[0] in body_]
+                        # executed on every iteration: the assignment block post-dominates the Some edge
+                        ok_prev = bool(lp) and not b.reaches(cb, lp[0], removed_nodes={loc[0]}) and not b.reaches(sb, lp[0], removed_nodes={loc[0]})
+        ctx.ob("clean_input:copy-non-whitespace", ok_copy, b.where(b.term_loc(cb)), "a character is pushed unchanged exactly under !is_whitespace(c)")
+        ctx.ob("clean_input:single-space", ok_space, b.where(b.term_loc(sb)), "a space is pushed exactly under is_whitespace(c) && !is_whitespace(previous)")
+        ctx.ob("clean_input:previous-tracks-current", ok_prev, b.file, "previous = c on every iteration")
+    else:
+        ctx.ob("clean_input:push-sites", False, b.file, "expected one copying push and one space push, found %s" % sorted(kinds), reason="shape-not-recognised")
+    rets = []
+    for loc, st in b.iter_stmts():
+        if st["k"] == "assign" and st["place"]["local"] == 0:
+            rets.append(ex.rvalue(st["rv"], loc))
+    for bb, t in b.iter_calls():
+        if t["dest"]["local"] == 0:
+            rets.append(ex.call_expr(t, b.term_loc(bb)))
+    okr = len(rets) == 1 and any(x[0] == "call" and x[1].endswith("<impl str>::trim") for x in subexprs(rets[0]))
+    ctx.ob("clean_input:trimmed", okr, b.file, "the result is the trimmed buffer")
